@@ -22,6 +22,22 @@ chk("C04", "model_checking", "E1",
     "Answers restricted to four classes relative to the running best; D<=2 (quick) / D<=3 (thorough); seeds derived from VERIF_SEED; "
     "gpyreg/NumPy trusted.", "DESIGN 4.4")
 
+chk("C03", "model_checking", "M1+E1",
+    "explicit-state model checking (TLC) of a TLA+ controller model bound to the code both ways, plus deviation-bounded exploration of real runs",
+    "TLC checks invariants (budget, iteration bound, message truth) and <>finished on all reachable states of the loop-controller model for a "
+    "matrix of constants; every complete path of the driven model graph is replayed on the real optimize() and compared field by field after "
+    "every loop iteration; every explored real execution (all noise modes, budget windows, complete_poll, accelerate_mesh, max_iter, constraints, "
+    "answer scripts with <= b deviations) is turned into an abstract trace that TLC accepts or rejects with the same StepC operator; independent "
+    "call counter, budget, max_iter and message truth are checked per execution; a loop probe bounds non-progress iterations.",
+    "Model abstracts values to 'number of large improvements'; advanced switches at defaults; liveness transfers to explored executions only; "
+    "TLC/JVM, gpyreg, NumPy trusted.", "DESIGN 2.4, 4.3")
+chk("C13", "model_checking", "M1+E1",
+    "explicit-state model checking (TLC) of the mesh-exponent rule in the controller model + per-poll recomputation of the rule on explored real runs",
+    "Same machinery as C03; the mesh rule (double on success up to the cap, halve/quarter on failure, unchanged outside polls, search mesh <= poll mesh, "
+    "tol_mesh stop) is an invariant/transition rule of the model, a field of every driven replay comparison, a clause TLC judges on every implementation "
+    "trace, and is recomputed from the call log at every poll step of every explored deterministic execution.",
+    "In noisy modes success is judged on GP estimates that the harness does not second-guess (only double/half/quarter is required there).", "DESIGN 4.13")
+
 NOT_BUILT = {}
 
 ENGINES = [
